@@ -4,7 +4,10 @@
    currentPartitionId, maxPartitions, partitionCapacity, config is read or written.  A call into a
    GenericStack / SafeMap method is a READ of the field holding the pointer (the callee locks internally:
    C11's and C07's subject).  `go f.Sweep()` is another instance of the method Sweep (the semantics of
-   Lib/Conc.v lets any number of instances of any method run concurrently).
+   Lib/Conc.v lets any number of instances of any method run concurrently).  The skeleton has one entry per EXPORTED
+   method (private helpers such as getCurrentPartition are analysed in place) plus "NewFifoMapCache.go1", the ticker
+   goroutine the constructor starts; locks and fields are found by TYPE and printed under role names, so private
+   renames and helper extractions do not change it.
 
    (a) Without the methods Clear and Resize the skeleton passes [lockset_check]: the generated counterpart of
        C08_partial_race_free_core, which rests on hand-written footprints.
@@ -64,10 +67,10 @@ Theorem cache_k1_exact : forall w o f,
   In (w, o, f) (offending_all cache_skeleton) -> In w k1_methods /\ In o k1_unlocked_readers /\ In f k1_fields.
 Proof. apply all_within_spec. vm_compute. reflexivity. Qed.
 
-(* sanity: what the skeleton says about the F15 shape — the fast path reads currentPartitionId under RLock, the slow
-   path re-reads and writes it under Lock *)
+(* sanity: what the skeleton says about the F15 shape (getCurrentPartition is a private helper, analysed in place
+   inside Set): the fast path reads currentPartitionId under RLock, the slow path re-reads and writes it under Lock *)
 Example cache_getCurrentPartition_shape :
-  exists fast slow, In ("getCurrentPartition", [fast; slow]) cache_skeleton
+  exists secs fast slow, In ("Set", secs) cache_skeleton /\ In fast secs /\ In slow secs
     /\ fast = Sec [("currentPartitionMux", Rd)]
                   [{| loc := "partitions"; wr := false |}; {| loc := "currentPartitionId"; wr := false |};
                    {| loc := "partitionCapacity"; wr := false |}]
@@ -78,8 +81,36 @@ Example cache_getCurrentPartition_shape :
        | Unknown => False
        end.
 Proof.
-  eexists _, _. split; [cbv [cache_skeleton]; simpl; repeat (first [left; reflexivity | right])|].
-  split; [reflexivity|]. simpl. repeat split; auto 10.
+  assert (H : existsb (fun ms => String.eqb (fst ms) "Set" &&
+                existsb (fun s => match s with
+                                  | Sec [(l, Rd)] [a; b; c] =>
+                                      String.eqb l "currentPartitionMux" && String.eqb (loc a) "partitions" && negb (wr a)
+                                      && String.eqb (loc b) "currentPartitionId" && negb (wr b)
+                                      && String.eqb (loc c) "partitionCapacity" && negb (wr c)
+                                  | _ => false end) (snd ms) &&
+                existsb (fun s => match s with
+                                  | Sec [(l, Wr)] accs =>
+                                      String.eqb l "currentPartitionMux"
+                                      && existsb (fun a => String.eqb (loc a) "currentPartitionId" && wr a) accs
+                                      && existsb (fun a => String.eqb (loc a) "currentPartitionId" && negb (wr a)) accs
+                                  | _ => false end) (snd ms)) cache_skeleton = true) by (vm_compute; reflexivity).
+  apply existsb_exists in H as ([n secs] & Hin & H). simpl in H.
+  apply andb_prop in H as [H Hslow]. apply andb_prop in H as [Hn Hfast].
+  apply String.eqb_eq in Hn. subst n.
+  apply existsb_exists in Hfast as (fast & Hf & Ef). apply existsb_exists in Hslow as (slow & Hs & Es).
+  exists secs, fast, slow. repeat split; auto.
+  - destruct fast as [[|[l [|]] [|]] [|a [|b [|c [|]]]]|]; try discriminate.
+    repeat (apply andb_prop in Ef as [Ef ?]).
+    repeat match goal with H : String.eqb _ _ = true |- _ => apply String.eqb_eq in H end.
+    destruct a as [la wa], b as [lb wb], c as [lc wc]; simpl in *. subst.
+    destruct wa, wb, wc; try discriminate. reflexivity.
+  - destruct slow as [[|[l [|]] [|]] accs|]; try discriminate.
+    apply andb_prop in Es as [Es E3]. apply andb_prop in Es as [E1 E2]. apply String.eqb_eq in E1. subst l.
+    split; [reflexivity|]. split.
+    + apply existsb_exists in E2 as ([la wa] & Hin' & E). simpl in E. apply andb_prop in E as [E Ew].
+      apply String.eqb_eq in E. subst. exact Hin'.
+    + apply existsb_exists in E3 as ([la wa] & Hin' & E). simpl in E. apply andb_prop in E as [E Ew].
+      apply String.eqb_eq in E. destruct wa; [discriminate|]. subst. exact Hin'.
 Qed.
 
 Print Assumptions cache_core_race_free.
